@@ -2,7 +2,7 @@ from props import LEAN_TB, CORR_TB, TRANS_TB
 
 PROP = dict(
     lean=["Tcell.Props.C09", "Tcell.Props.C09Acs", "Tcell.Props.C01B"], namespaces=["Tcell.Props.C09", "Tcell.Props.C01B"], engines=["draw", "drawcp"],
-    classes=["malformed-output", "incomplete-sequence", "payload-", "ref-unavailable"],
+    classes=["malformed-output", "incomplete-sequence", "payload-", "padding-residue", "ref-unavailable"],
     trusted_base=[LEAN_TB, CORR_TB, TRANS_TB,
                   "strict tokenizer = the Lean ECMA-48 reference emulator's complaint list on the implementation's bytes",
                   "go-runewidth as regenerated range table (kernel-checked range inclusions)"],
@@ -11,6 +11,6 @@ PROP = dict(
 )
 META = dict(
     technique="Lean 4 proof that no primary rune (all of Int) yields a control byte or C1 scalar in the cell payload, from the regenerated width table by kernel evaluation + strict tokenizer (Lean reference emulator) over the implementation's bytes for draw histories and every code point",
-    text="payload_clean: for every rune value the payload of the cell (GetContent substitution + UTF-8 encoding) contains no C0 byte, no DEL and encodes no C1 scalar; width-table obligations re-checked on the regenerated ranges. Tcell.Props.C09Acs: the strings the draw path writes for ACS glyphs (the strings buildAcsMap composed, written verbatim with writeString, for the variant the tree implements) contain no `$<` residue on any database entry once fixes/C17-acs-strip-padding.patch is in the tree (acs_strings_no_residue; pinned counterexample acs_residue_unstripped: vt220), and are accepted by the strict tokenizer on every ECMA entry (acs_strings_accepted; the PC-font C0 positions of ansi/cygwin/pcansi listed exactly by acs_pc_font_controls). Every byte stream the implementation writes in draw histories and in the all-code-points sweep is accepted by the strict reference tokenizer with no complaint and ends in ground state.",
+    text="payload_clean: for every rune value the payload of the cell (GetContent substitution + UTF-8 encoding) contains no C0 byte, no DEL and encodes no C1 scalar; width-table obligations re-checked on the regenerated ranges. Tcell.Props.C09Acs: the strings the draw path writes for ACS glyphs (the strings buildAcsMap composed, written verbatim with writeString, for the variant the tree implements) contain no `$<` residue on any database entry once fixes/C17-acs-strip-padding.patch is in the tree (acs_strings_no_residue; pinned counterexample acs_residue_unstripped: vt220), and are accepted by the strict tokenizer on every ECMA entry (acs_strings_accepted; the PC-font C0 positions of ansi/cygwin/pcansi listed exactly by acs_pc_font_controls). Every byte stream the implementation writes in draw histories and in the all-code-points sweep is accepted by the strict reference tokenizer with no complaint and ends in ground state. padding-residue: nothing the screen writes (Init, draws, Sync, Fini) contains a well-formed terminfo(5) padding specification `$<n[.d][*][/]>` (judged on the bytes, in every case in which the application itself supplied no '$'); fixed cases on every ECMA entry with padding (vt100, vt102, vt220, vt400, vt420, wy99…) as it is and with each padding form (integer, decimal, `*`, `/`, both).",
     note="Symbolic: cup for ALL positions on the 22 XtermLike entries (C01B.cup_accepted_all), closed forms of setaf/setab/setfgbg/RGB/underline-colour expansions for all parameters (LayerB.parm_*), and output_wellformed_partial: over every draw history the strict tokenizer accepts every byte the model writes, modulo CapsFx — which is proved for the 22 XtermLike entries (C01B.db_output_wellformed: no CapsFx hypothesis; styles without hyperlink, fitted colours any palette entry). The remaining expansions are validated (reference tokenizer on implementation bytes and on all DB strings, param_caps_accepted_samples).",
 )
